@@ -248,7 +248,7 @@ fn run_case<T: Elem>(case: u64, args: &Args, ev: &mut Ev, log: &mut EventLog) {
 
 fn main() {
     let args = Args::parse("C04");
-    let n = args.budget(800, 20000);
+    let n = args.budget(800, 100000);
     let ev = run_sharded(&args, n, |case, ev, log| {
         if case % 4 == 3 {
             run_case::<f32>(case, &args, ev, log)
